@@ -41,7 +41,7 @@ def read(cb, render):
 
     rep = Report(cb)
     o = {"measurements": [m.value for m in cb.all_measurements()], "profile": list(rep.quality_profile()),
-         "pct": [int(x) for x in rep.quality_profile_percentage()],
+         "pct": [x if type(x) is int else (int(x) if type(x) is float and x == int(x) else -1) for x in rep.quality_profile_percentage()],
          "findings": [u.measurement.value for u in rep.all_report_units_sorted_by_length_asc(30)],
          "hard": sum(t.hard_to_maintain for t in cb.totals.values()), "unm": sum(t.unmaintainable for t in cb.totals.values()),
          "files": [[p, [m.value for m in e.measurements()]] for p, e in cb.files.items()], "figs": [], "necessary": []}
